@@ -71,6 +71,16 @@ CHECKS = {
         "Trusted: golden key table frozen from the pinned tree; xterm ctlseqs for mouse/CPR; time-outs fire only between reads; bounds in evidence.",
         "DESIGN.md §4 C05",
     ),
+    "C15": (
+        MC,
+        "explicit-state BFS over byte-token histories on the real TermCanvas: exact-state dedup for robustness invariants; (emulator, reference VT100) pair states compared in lock-step for faithfulness; exhaustive scrollback window sweep",
+        "~400 byte tokens (all CSI finals x parameter forms, OSC, charset, C0/C1, valid/invalid UTF-8, incomplete sequences) + resizes + scrollback view "
+        "operations are explored breadth-first with deduplication on the complete emulator state; every state is checked for grid shape, cursor/region "
+        "bounds, content() shape, reply grammar and chunking independence; on the VT100 subset the emulator is compared after every token with "
+        "mc/refs/vt_ref.py (accepting DEC/xterm or Linux-console behaviour where the family disagrees).",
+        "Trusted: mc/refs/vt_ref.py; sizes <= 9x3 / 2x4; depth bounds in evidence; Terminal widget (child process) not driven, only TermCanvas.",
+        "DESIGN.md §4 C15",
+    ),
 }
 
 PENDING_REASON = "check not built yet in this round (see DESIGN.md Appendix B build order); no claim is made"
